@@ -1,3 +1,2 @@
 import DirectVerif.Model.Basic
-import DirectVerif.Model.Crop
-import DirectVerif.Model.Shift
+import DirectVerif.Driver.Common
